@@ -149,6 +149,7 @@ def run(chk, prog):
                    '%s can return without apply_any_patch although no background save is active: the look-ahead\'s '
                    'variable / visit-count changes are never merged into the committed state' % name, f.loc(0))
     patch_read_modify_write(chk, prog, tr)
+    at_start_is_sticky(chk, prog, tr)
 
 
 def applies_patch_unless_saving(prog, tr, f, depth=0):
@@ -285,6 +286,91 @@ def check_conditional_copies(chk, prog, tr, cp, fields, R1):
         chk.decide(R4, chk.key(R4, 'set-on-push'), bool(sets), 'CallStack::push records the output position',
                    'CallStack::push no longer records function_start_in_output_stream: function-start trimming is lost',
                    cpush.loc(0))
+
+
+def at_start_is_sticky(chk, prog, tr):
+    R6 = 'C01.entered-at-start-stops-at-the-first-miss'
+    chk.rule(R6, 'When a divert enters several nested containers at once, visit_changed_containers_due_to_divert walks '
+             'from the target up through its ancestors; an ancestor counts as "entered at its start" only if the child it '
+             'was entered through is its first AND every container below was entered at its start too. In code: the '
+             'at-start value handed to visit_container depends on a boolean that starts true and is assigned false under '
+             'the negative outcome of that very value (a flag that, once cleared, stays cleared for the rest of the walk). '
+             'Without it a divert into the middle of a container that happens to be the first child of a '
+             'count-at-start-only container counts that container again.')
+    f = prog.fn('Story::visit_changed_containers_due_to_divert')
+    if not chk.anchor(R6, 'Story::visit_changed_containers_due_to_divert', f):
+        return
+    from analysis.defuse import du as _du
+    from analysis.guards import resolve_cond as _rc
+    g = cfg(f)
+    d = _du(f)
+    vc = [(bb, t) for bb, t in f.calls() if callee_short(t) == 'Story::visit_container' and len(t['args']) > 2]
+    if not chk.anchor(R6, 'call of visit_container in the ancestor walk', vc):
+        return
+    # sticky flags: bool locals with a `true` definition and a `false` definition
+    flags = []
+    for l, defs in d.defs.items():
+        if f.local_ty(l) != 'bool':
+            continue
+        vals = {}
+        for df in defs:
+            if df['kind'] == 'assign' and df['rv']['k'] == 'use' and df['rv']['op'].get('k') == 'const' \
+                    and 'bool' in df['rv']['op']:
+                vals.setdefault(df['rv']['op']['bool'], []).append(df['bb'])
+        if True in vals and False in vals:
+            flags.append((l, vals))
+    ok = False
+    why = 'no boolean flag that starts true and is cleared inside the walk'
+    for bb, t in vc:
+        a = t['args'][2]
+        if a['k'] not in ('copy', 'move'):
+            continue
+        el = a['pl']['l']
+        for l, vals in flags:
+            # (1) cleared under the negative outcome of the at-start value
+            cleared_under = False
+            for fb in vals[False]:
+                for b in g.dominators().get(fb, ()):
+                    tt = f.blocks[b]['term']
+                    if tt and tt['k'] == 'switch' and tt['d'].get('k') in ('copy', 'move'):
+                        src = tr.prov(f, tt['d'])
+                        if tr.prov(f, a) & src - {'const:true', 'const:false'} or tt['d']['pl'].get('l') == el:
+                            cleared_under = True
+            # (2) the at-start value reads the flag: directly, or through a closure that captures it
+            reads = False
+            work, seen = [el], set()
+            while work:
+                x = work.pop()
+                if x in seen:
+                    continue
+                seen.add(x)
+                if x == l:
+                    reads = True
+                    break
+                for df in d.defs.get(x, []):
+                    ops = []
+                    if df['kind'] in ('assign', 'partial'):
+                        rv = df['rv']
+                        ops += [rv.get(k) for k in ('op', 'a', 'b') if isinstance(rv.get(k), dict)]
+                        ops += rv.get('ops') or []
+                        if 'pl' in rv:
+                            ops.append({'k': 'copy', 'pl': rv['pl']})
+                    elif df['kind'] in ('call', 'partial_call'):
+                        ops += df['term']['args']
+                    for o in ops:
+                        if o and o.get('k') in ('copy', 'move'):
+                            work.append(o['pl']['l'])
+            if cleared_under and reads:
+                ok = True
+            elif not reads:
+                why = 'the at-start value handed to visit_container does not depend on the flag'
+            else:
+                why = 'the flag is not cleared under the negative outcome of the at-start value'
+    chk.decide(R6, chk.key(R6, 'visit_changed_containers_due_to_divert'), ok,
+               'the at-start value is conjoined with a flag that is cleared at the first container not entered at its start',
+               'visit_changed_containers_due_to_divert decides "entered at its start" for each ancestor on its own (%s): a '
+               'divert into the middle of a container nested at index 0 of a gather or choice body counts that outer '
+               'container as entered at its start, and its read count goes up on every such divert' % why, f.loc(vc[0][0]))
 
 
 def patch_read_modify_write(chk, prog, tr):
